@@ -78,7 +78,12 @@ pub const CALLS: [Call; 19] = [
     ("tag_by_name", |f| hash64(&f.tag_by_name("b").map(|t| (t.from_frame(), t.to_frame(), t.user_data().cloned().map(|u| u.text))))),
     ("slices+userdata", |f| hash64(&(f.slices().len(), f.slices()[0].name.clone(), f.layer(0).user_data().map(|u| u.text.clone()), f.cel(0, 1).user_data().map(|u| u.color.map(|c| c.0))))),
     ("layers walk", |f| hash64(&f.layers().map(|l| (l.id(), l.is_visible(), l.parent().map(|p| p.id()), l.name().to_string())).collect::<Vec<_>>())),
-    ("debug fmt", |f| hash64(&format!("{:?}", f.layer(1)).len())),
+    // Debug output must be produced without a panic; its text is not a result (it may legitimately show
+    // the state of a lazily filled cache or a hash order)
+    ("debug fmt", |f| {
+        let _ = format!("{:?} {:?}", f.layer(1), f.layer(2));
+        1
+    }),
     // calls 14..: out-of-range arguments (panic), caught; the sprite must be unaffected
     ("tileset.tile_image(99) [out of range]", |f| caught(|| h_img(f.tilesets().get(2).unwrap().tile_image(99)))),
     ("layer(99) [out of range]", |f| caught(|| hash64(&f.layer(99).name().to_string()))),
